@@ -28,6 +28,10 @@ def run(chk):
     if pc is not None and hasattr(pc, "run_c07_policy_part"):
         pc.run_c07_policy_part(chk, ok)
         pc.run_c07_interleave_part(chk, ok)
+    if ok:
+        import source_tie
+        source_tie.report(chk, source_tie.circuit_tie(chk), "circuit",
+                          "breaker histories, policy-level scripts and interleavings: no property violation found")
 
 
 def replay(path):
